@@ -101,6 +101,9 @@ type tcase struct {
 	// fkind == rawcut (op "rawcut"): the genuine raw response at step fstep cut after rawN
 	// bytes; cutPad > 0: PLAIN's empty success payload padded to cutPad bytes
 	cutPad int
+	// serial: run after the parallel phase, alone in one child (Conn-path cases that make the
+	// client allocate 1-2 GiB: several of them at once exhaust a loaded host)
+	serial bool
 }
 
 func (c tcase) op() string {
@@ -290,12 +293,20 @@ func enumerate(creds []credEntry) (main, side []tcase) {
 					if ms.mech == "plain" && pfx >= 0 && pfx < int64(n) {
 						continue
 					}
+					// Conn path: readNewBytes allocates the announced length (an observation, not a
+					// verdict).  Announced lengths >= 2^30 are kept on a few scripts only and run
+					// one at a time: dozens of 1-2 GiB allocations in parallel children can exhaust
+					// a loaded host and kill children at random.
+					huge := pfx >= 1<<30
+					if huge && path == "d" && !(ms.mech == "plain" && (n == 0 || n == 2)) {
+						continue
+					}
 					for _, end := range []string{"close", "silent"} {
 						if ms.mech == "plain" && pfx >= 0 && pfx <= int64(n) && end == "close" {
 							continue // accepted by PLAIN: the broker must stay to serve the first use
 						}
 						side = append(side, tcase{path: path, mech: ms.mech, hs: 0, au: saslfake.Absent, cred: "right", fstep: ms.step,
-							fkind: saslfake.FRawResp, rawPrefix: pfx, rawN: n, rawEnd: end})
+							fkind: saslfake.FRawResp, rawPrefix: pfx, rawN: n, rawEnd: end, serial: huge && path == "d"})
 					}
 				}
 			}
@@ -549,12 +560,27 @@ func runCase(c tcase, creds []credEntry, seed int64) outcome {
 	mu.Lock()
 	js := append([]*saslfake.Journal(nil), journals...)
 	mu.Unlock()
+	// The journal is read only after the broker goroutine of every connection has finished
+	// (it ends when the client closes or the script closes): a journal snapshotted earlier
+	// could miss tokens.  A connection still open after 15 s is reported as such (UNSETTLED),
+	// never as a possibly truncated journal.
+	unsettled := false
 	for _, j := range js {
 		select {
 		case <-j.ClientGone():
-		case <-time.After(3 * time.Second):
-			o.notes = append(o.notes, "connection still open 3s after the case ended")
+		case <-time.After(15 * time.Second):
+			unsettled = true
+			o.notes = append(o.notes, "connection still open 15 s after the case ended")
 		}
+	}
+	if unsettled {
+		mu.Lock()
+		for _, e := range ends {
+			e.Close()
+		}
+		mu.Unlock()
+		o.res = "UNSETTLED"
+		return o
 	}
 	if len(js) == 0 {
 		o.res = "NOCONN"
@@ -698,6 +724,7 @@ type result struct {
 
 func runWorker(self string, seed int64, ids []int, cases []tcase, results []result, wg *sync.WaitGroup) {
 	defer wg.Done()
+	restarts := 0
 	for len(ids) > 0 {
 		// under an address-space limit, as checks/schema_common.run_dec_child does
 		cmd := exec.Command("sh", "-c", fmt.Sprintf("ulimit -v %d; exec \"$0\" -child -seed %d", *vlimitKB, seed), self)
@@ -751,14 +778,23 @@ func runWorker(self string, seed int64, ids []int, cases []tcase, results []resu
 			o := result{res: "PANIC", notes: clean(msg), meas: "alloc=0 recv=0"}
 			if strings.Contains(stderr.String(), "out of memory") || strings.Contains(stderr.String(), "cannot allocate") {
 				o.res = "OOM"
+			} else if !strings.Contains(stderr.String(), "panic:") && !strings.Contains(stderr.String(), "fatal error:") {
+				// no Go crash report: the child was killed from outside (OOM killer, job
+				// control); that says nothing about the library
+				o.res = "KILLED"
+				o.notes = clean(fmt.Sprintf("child ended without a Go crash report: %v %s", err, msg))
 			}
 			c := cases[current]
 			o.feats = fmt.Sprintf("path=%s,mech=%s,hs=%s,auth=%s,cred=%s,fault=%s,fstep=%s,crash", c.path, c.mech, verS(c.hs), verS(c.au), c.cred, c.fkind, stepS(c.fstep))
 			results[current] = o
 			doneN++
 		} else if err != nil && doneN < len(ids) {
-			fmt.Fprintln(os.Stderr, "child failed without a running case:", err, stderr.String())
-			os.Exit(3)
+			// died between two cases: start another child for the rest (a few times)
+			restarts++
+			if restarts > 8 {
+				fmt.Fprintln(os.Stderr, "child failed without a running case:", err, stderr.String())
+				os.Exit(3)
+			}
 		}
 		ids = ids[doneN:]
 	}
@@ -795,7 +831,14 @@ func main() {
 	seed := flag.Int64("seed", 1, "PRNG seed")
 	isChild := flag.Bool("child", false, "internal: run cases from stdin")
 	one := flag.String("case", "", "run a single case (the arguments after 'run') in-process and print it")
-	workers := flag.Int("workers", 12, "parallel child processes")
+	defWorkers := runtime.NumCPU() / 2
+	if defWorkers > 12 {
+		defWorkers = 12
+	}
+	if defWorkers < 2 {
+		defWorkers = 2
+	}
+	workers := flag.Int("workers", defWorkers, "parallel child processes (default min(12, NumCPU/2))")
 	subset := flag.String("subset", "all", "all | rawcut (only the cut positions of the raw SASL response) | rawread (only the raw response reads) | nofault (only the fault-free runs)")
 	cutStride := flag.Int("cutstride", 6, "rawcut: silence ending at every n-th cut position")
 	flag.Int64Var(vlimitKB, "vlimit", 24000000, "address-space limit of the child processes, KB (ulimit -v)")
@@ -844,15 +887,27 @@ func main() {
 	results := make([]result, len(cases))
 	self, _ := os.Executable()
 	var wg sync.WaitGroup
+	var par, ser []int
+	for i, c := range cases {
+		if c.serial {
+			ser = append(ser, i)
+		} else {
+			par = append(par, i)
+		}
+	}
 	for w := 0; w < *workers; w++ {
 		var ids []int
-		for i := w; i < len(cases); i += *workers {
-			ids = append(ids, i)
+		for i := w; i < len(par); i += *workers {
+			ids = append(ids, par[i])
 		}
 		wg.Add(1)
 		go runWorker(self, *seed, ids, cases, results, &wg)
 	}
 	wg.Wait()
+	if len(ser) > 0 { // one at a time, nothing else running
+		wg.Add(1)
+		runWorker(self, *seed, ser, cases, results, &wg)
+	}
 	out := bufio.NewWriter(os.Stdout)
 	defer out.Flush()
 	for i, c := range cases {
